@@ -264,6 +264,62 @@ def check_coh(case):
     return {'nt': n >= 1 and m >= 2 and len(rec['blocks']) >= 1, 'cls': ['coh:kinds=%d' % len(kinds), 'coh:blocks=%d' % len(rec['blocks'])]}
 
 
+@st.composite
+def astype_cases(draw):
+    """astype[key](dtype) where the requested dtype is one the frame already holds, keys with gaps (stepped slices,
+    gappy lists, masks) inside wide blocks: differential over layouts plus the per-column dtype model."""
+    rec = draw(gen.frame_recipe(min_rows=1, max_rows=4, min_cols=2, max_cols=7, kinds=('int64', 'float64', 'bool', 'object', 'int32'),
+                                index_kinds=('auto',), column_kinds=('auto', 'str'), missing=False))
+    cols = gen.block_columns(rec['blocks'])
+    m = len(cols)
+    own = sorted({str(c.dtype) for c in cols})
+    dt = draw(st.sampled_from(own + ['float64', 'object']))
+    return {'rec': rec, 'lay2': draw(gen.relayout(cols)), 'key': draw(gen.iloc_key(m, allow_scalar=False)), 'dt': dt,
+            'route': draw(st.sampled_from(['iloc', 'loc', 'mask']))}
+
+
+def check_astype(case):
+    rec = case['rec']
+    cols = gen.block_columns(rec['blocks'])
+    m = len(cols)
+    pos, _ = gen.positions_of(case['key'], m)
+    if not pos:
+        raise Discard('empty selection')
+    layouts = [rec['blocks'], case['lay2'], gen.layout_split(cols), gen.layout_consolidated(cols)]
+    want = []
+    for j, c in enumerate(cols):
+        if j in pos:
+            try:
+                with np.errstate(all='ignore'):
+                    want.append(c.astype(case['dt']))
+            except Exception:  # noqa: BLE001
+                raise Discard('NumPy cannot convert')
+        else:
+            want.append(c)
+    for blks in layouts:
+        f = gen.build_frame({**rec, 'blocks': blks})
+        labels = list(f.columns)
+        if case['route'] == 'iloc':
+            key = sf.ILoc[case['key']]
+        elif case['route'] == 'mask':
+            key = np.array([j in pos for j in range(m)], dtype=bool)
+        else:
+            key = [labels[j] for j in pos]
+        r = lib(lambda: f.astype[key](case['dt']))
+        if isinstance(r, Raised):
+            raise Failure('raised:%s' % r.cls, 'astype[%s](%s) on layout %s raised %r' % (short(key), case['dt'], _sig_layout(blks), r.exc), r.where)
+        got = obs.frame_cols(r)
+        for j in range(m):
+            if got[j].dtype != want[j].dtype and not (want[j].dtype.kind in 'US' and got[j].dtype.kind == want[j].dtype.kind):
+                raise Failure('astype-dtype', 'astype[%s](%s) on layout %s: column %d dtype %s expected %s' % (short(key), case['dt'], _sig_layout(blks), j, got[j].dtype, want[j].dtype),
+                              where='op:astype_sel')
+            if not all(_feq(canon(a), canon(b)) for a, b in zip(arr_list(got[j]), arr_list(want[j]))):
+                raise Failure('astype-value', 'astype[%s](%s) on layout %s: column %d values %s expected %s' % (short(key), case['dt'], _sig_layout(blks), j, short(got[j]), short(want[j])),
+                              where='op:astype_sel')
+    gappy = len(pos) >= 2 and any(b - a > 1 for a, b in zip(sorted(pos), sorted(pos)[1:]))
+    return {'nt': gappy or pos != sorted(pos), 'cls': ['astype:' + case['route'], 'astype-gappy' if gappy else 'astype-contiguous']}
+
+
 # ---------------------------------------------------------------------------------------------
 
 BLOCK_COERCE_OPS = ('fillna', 'fillna_sided', 'fillna_dir', 'assign_bloc', 'assign_element')
@@ -327,6 +383,8 @@ def tag_coh(case, f):
 SUBS = [
     Sub('layout_diff', diff_cases(), check_diff, quick=2500, thorough=80000, tag=tag_diff,
         rule='same columns, 3 layouts, one op: equal observations'),
+    Sub('astype_layouts', astype_cases(), check_astype, quick=800, thorough=24000,
+        rule='astype[key](dtype) over 4 layouts vs the per-column dtype/value model (keys with gaps inside wide blocks)'),
     Sub('coherence', coh_cases(), check_coh, quick=600, thorough=16000, tag=tag_coh,
         rule='every read route vs model cells and column dtypes'),
 ]
